@@ -37,7 +37,7 @@ def hcase(c, b, names, tables):
     # ... and from a non-zero porosity (the effective porosity is clamped at zero)
     h["isv0"] = {"Porosity": c["f0"]}
     h["mpdefault"] = [0, 1]
-    if c.get("twin"):
+    if c.get("twin") and c["twin"] in names:   # (a replay builds the configuration alone)
         h["twin"] = names[c["twin"]]
     h["par"]["theta"] = c["theta"]
     h["law"]["theta"] = c["theta"]
@@ -72,7 +72,6 @@ def run(ctx):
     mf = ctx.path("merged.ndjson")
     core.write_ndjson(mf, merged)
     bad, jr = ctx.judge("mfront/BricksJudge", mf, env={"TIER": ctx.tier}, heap="8g", timeout=2400)
-    probe_rejected = False
     for bd in bad:
         c = byid[bd["id"]]
         worst = [x for x in bd["obs"]["blocks"] if x["cls"] > c["blockclass"] and x["bad"] >= 3]
